@@ -132,16 +132,32 @@ def strip_comments(src):
     return "".join(out)
 
 
-def grep_forbidden():
+def module_closure(modules):
+    """Project-local transitive imports of the given modules (file paths)."""
+    seen, todo = {}, list(modules) + ["Main"]
+    while todo:
+        m = todo.pop()
+        if m in seen:
+            continue
+        p = os.path.join(LEAN, *m.split(".")) + ".lean"
+        if not os.path.exists(p):
+            continue
+        seen[m] = p
+        for line in open(p):
+            mm = re.match(r"\s*import\s+((?:Rtamt|RtamtProofs)[\w.]*)", line)
+            if mm:
+                todo.append(mm.group(1))
+    return seen
+
+
+def grep_forbidden(modules):
+    """sorry / axiom / native_decide ... in the property's proof modules and everything
+    they import from this project (comments stripped)."""
     hits = []
-    for root, dirs, files in os.walk(LEAN):
-        dirs[:] = [d for d in dirs if d != ".lake"]
-        for fn in files:
-            if fn.endswith(".lean"):
-                p = os.path.join(root, fn)
-                for n, line in enumerate(strip_comments(open(p).read()).split("\n"), 1):
-                    if FORBIDDEN.search(line):
-                        hits.append("%s:%d: %s" % (os.path.relpath(p, VERIF), n, line.strip()))
+    for m, p in sorted(module_closure(modules).items()):
+        for n, line in enumerate(strip_comments(open(p).read()).split("\n"), 1):
+            if FORBIDDEN.search(line):
+                hits.append("%s:%d: %s" % (os.path.relpath(p, VERIF), n, line.strip()))
     return hits
 
 
@@ -174,7 +190,7 @@ def lean_build_and_audit(prop_id):
                 res["failures"].append("proof module %s no longer checks: %s" % (m, " || ".join(e.replace("\n", " ")[:300] for e in errs[:4])))
             else:
                 built.append(m)
-        hits = grep_forbidden()
+        hits = grep_forbidden(modules)
         if hits:
             res["ok"] = False
             res["failures"].append("forbidden tokens: " + "; ".join(hits[:5]))
